@@ -439,12 +439,19 @@ StepEv(n) == LET d == Nd(n) IN
               ELSE IF d.parent # "" /\ ~IsCls(heap, pv) THEN Go(Ret(Throw(Err("TypeError")))) /\ UNCHANGED k /\ Same
               ELSE LET par == IF d.parent = "" THEN 0 ELSE pv.a
                        L == Len(heap)  M == Len(d.mkeys)  SM == Len(d.smkeys)
+                       \* accessors (get k() / set k(v)) live on the prototype as one property holding both halves declared in THIS class
+                       AG == SelectSeq(d.agets, LAMBDA x : x # 0)  AS == SelectSeq(d.asets, LAMBDA x : x # 0)
+                       GIdx(i) == Cardinality({j \in 1..i : d.agets[j] # 0})      \* position of getter i among the getters
+                       SIdx(i) == Cardinality({j \in 1..i : d.asets[j] # 0})
+                       accBase == L + 2 + M + SM
+                       accVals == [i \in 1..Len(d.akeys) |-> [t |-> "acc", g |-> IF d.agets[i] # 0 THEN Fun(accBase + GIdx(i)) ELSE U,
+                                                                           s |-> IF d.asets[i] # 0 THEN Fun(accBase + Len(AG) + SIdx(i)) ELSE U]]
                        protoA == L + 1  clsA == L + 2
-                       h1 == Append(heap, [k |-> "obj", ks |-> d.mkeys, vs |-> [i \in 1..M |-> Fun(L + 2 + i)], proto |-> IF par = 0 THEN 0 ELSE heap[par].protoObj])
+                       h1 == Append(heap, [k |-> "obj", ks |-> d.mkeys \o d.akeys, vs |-> [i \in 1..M |-> Fun(L + 2 + i)] \o accVals, proto |-> IF par = 0 THEN 0 ELSE heap[par].protoObj])
                        h2 == Append(h1, [k |-> "fun", cls |-> TRUE, params |-> d.params, defs |-> d.defs, body |-> d.body, env |-> env, name |-> d.name,
                                          arrow |-> FALSE, gen |-> FALSE, home |-> 0, protoObj |-> protoA, parent |-> par, fkeys |-> d.fkeys, finit |-> d.finit,
                                          ks |-> d.smkeys, vs |-> [i \in 1..SM |-> Fun(L + 2 + M + i)], hasctor |-> (d.hasctor = 1)])
-                       h3 == AppendFuns(AppendFuns(h2, d.mfuncs, protoA, env), d.smfuncs, clsA, env)
+                       h3 == AppendFuns(AppendFuns(AppendFuns(AppendFuns(h2, d.mfuncs, protoA, env), d.smfuncs, clsA, env), AG, protoA, env), AS, protoA, env)
                    IN /\ heap' = h3 /\ UNCHANGED <<env, out>> /\ Go(RetV(U)) /\ Push([f |-> "clsS", n |-> n, c |-> clsA, i |-> 0])
     [] d.ty = "supercall" -> IF d.args = <<>> THEN Go(RetV(U)) /\ Push([f |-> "superGo", args |-> <<>>]) /\ Same
                              ELSE Go(Ev(d.args[1])) /\ Push([f |-> "superA", n |-> n, args |-> <<>>]) /\ Same
@@ -675,6 +682,11 @@ StepRet == LET c == ctl.c IN
                ELSE Go(Ev(d.vals[Len(acc) + 1])) /\ k' = <<[f EXCEPT !.acc = acc]>> \o rest /\ Same
           [] f.f = "member" ->
                LET g == GetProp(heap, v, f.key) IN
+               IF ~IsCls(heap, v) /\ v.t \notin {"fun", "err"} /\ g.ok /\ g.v.t = "acc" THEN
+                    \* an accessor property: [[Get]] calls the getter with the receiver as this (undefined without a getter)
+                    (IF g.v.g.t = "undef" THEN Go(RetV(U)) /\ k' = rest /\ Same
+                     ELSE Go(RetV(U)) /\ k' = <<[f |-> "apply", fv |-> g.v.g, args |-> <<>>, thisv |-> v, isnew |-> FALSE]>> \o rest /\ Same)
+               ELSE
                Go(IF IsCls(heap, v) /\ f.key # LengthKey THEN RetV(ClsGet(heap, v.a, f.key))
                   ELSE IF v.t \in {"fun", "err"} THEN Ret(Abrupt("unmodelled", U, "")) ELSE IF g.ok THEN RetV(g.v) ELSE Ret(Throw(Err("TypeError")))) /\ k' = rest /\ Same
           [] f.f = "indexA" -> Go(Ev(Nd(f.n).b)) /\ k' = <<[f |-> "indexB", base |-> v]>> \o rest /\ Same
@@ -775,6 +787,12 @@ StepRet == LET c == ctl.c IN
           [] f.f = "setiA" -> Go(Ev(Nd(f.n).b)) /\ k' = <<[f |-> "setiB", n |-> f.n, base |-> v]>> \o rest /\ Same
           [] f.f = "setiB" -> IF ToPrim(v).t = "big" THEN Go(Ret(Abrupt("unmodelled", U, ""))) /\ k' = rest /\ Same
                               ELSE Go(Ev(Nd(f.n).c)) /\ k' = <<[f |-> "setmB", base |-> f.base, key |-> IF f.base.t \in {"undef", "null"} THEN <<>> ELSE KeyOf(heap, v)]>> \o rest /\ Same
+          [] f.f = "setmB" /\ f.base.t = "ref" /\ heap[f.base.a].k = "obj" /\ ObjGet(heap, f.base.a, f.key).v.t = "acc" ->
+               \* [[Set]] reaches an accessor (own or inherited): the setter runs with the receiver as this; without a setter strict code throws
+               LET a == ObjGet(heap, f.base.a, f.key).v IN
+               IF a.s.t = "undef" THEN Go(Ret(Throw(Err("TypeError")))) /\ k' = rest /\ Same
+               ELSE Go(RetV(U)) /\ k' = <<[f |-> "apply", fv |-> a.s, args |-> <<v>>, thisv |-> f.base, isnew |-> FALSE], [f |-> "setret", v |-> v]>> \o rest /\ Same
+          [] f.f = "setret" -> Go(RetV(f.v)) /\ k' = rest /\ Same        \* the value of an assignment is the assigned value, not what the setter returns
           [] f.f = "setmB" ->
                LET r == IF f.base.t \in {"fun", "err"} THEN [r |-> "unmodelled", h |-> heap] ELSE SetProp(heap, f.base, f.key, v) IN
                IF r.r = "ok" THEN heap' = r.h /\ Go(RetV(v)) /\ k' = rest /\ UNCHANGED <<env, out>>
